@@ -76,6 +76,33 @@ def g3(ctx):
                   '%s.%s writes %s: a third writer can make the Python-visible registry disagree '
                   'with the engine' % (key[0], key[1], MIRROR),
                   writers[key][0].loc(writers[key][1]))
+    # a failed engine call is not "undone" blindly: an exception handler round the engine call that
+    # makes the opposite engine call without any test of its own removes what was there before the
+    # call (a duplicate registration fails *because* the entry exists - rolling it back deletes it)
+    opposite = {'_C.register_node': '_C.unregister_node', '_C.unregister_node': '_C.register_node'}
+    for key, engine_call in expected.items():
+        if key not in writers:
+            continue
+        mod_, fn_, _ws = writers[key]
+        blind = []
+        for t in walk(fn_):
+            if not isinstance(t, ast.Try):
+                continue
+            if not any(isinstance(c, ast.Call) and call_name(c) == engine_call for b in t.body for c in ast.walk(b)):
+                continue
+            for h in t.handlers:
+                for c in ast.walk(h):
+                    if isinstance(c, ast.Call) and call_name(c) == opposite[engine_call]:
+                        guarded = any(isinstance(a, (ast.If, ast.IfExp)) and any(x is c for x in ast.walk(a))
+                                      for b in h.body for a in ast.walk(b))
+                        if not guarded:
+                            blind.append(c)
+        ctx.check('%s/no-blind-rollback' % key[1], not blind,
+                  '%s: no exception handler round %s undoes the call unconditionally' % (key[1], engine_call),
+                  '%s: when %s raises, the handler calls %s for the same key without asking why it failed: a '
+                  'call that fails because the entry already exists (or does not) destroys the state it found, '
+                  'and the Python-visible registry no longer describes what flattening does'
+                  % (key[1], engine_call, opposite[engine_call]), mod_.loc(blind[0]) if blind else mod_.loc(fn_))
     for key, engine_call in expected.items():
         ctx.require(key in writers, '%s.%s no longer writes the mirror' % key)
         mod, fn, ws = writers[key]
